@@ -76,6 +76,70 @@ fn classics() -> Vec<LinCase> {
     ]
 }
 
+/// The three classical cycling instances (Beale, Kuhn, Chvatal) with `extra` cost-free variables
+/// of their own: in front of (`front`) or behind the instance's columns, tied together by one row
+/// of kind `kind` (0: their sum = 1, 1: their sum <= 1, 2: the first one <= 1, the others free of
+/// rows). Dantzig's rule stalls on the instance until the anti-cycling rule takes over, and then
+/// meets columns whose reduced cost is exactly zero.
+fn embedded_cycling(which: usize, extra: usize, front: bool, kind: u8) -> LinCase {
+    let mut base = match which % 3 {
+        0 => classics().swap_remove(0),
+        1 => classics().swap_remove(1),
+        _ => LinCase {
+            vars: nn(4),
+            rows: vec![
+                row(&[0.5, -5.5, -2.5, 9.0], R::Le, 0.0),
+                row(&[0.5, -1.5, -0.5, 1.0], R::Le, 0.0),
+                row(&[1.0, 0.0, 0.0, 0.0], R::Le, 1.0),
+            ],
+            obj: vec![10.0, -57.0, -9.0, -24.0],
+            offset: 0.0,
+            sense: Sense::Max,
+        },
+    };
+    let n = base.n();
+    let place = |old: &[f64], new: &[f64]| -> Vec<f64> {
+        if front {
+            new.iter().chain(old).cloned().collect()
+        } else {
+            old.iter().chain(new).cloned().collect()
+        }
+    };
+    let zeros = vec![0.0; extra];
+    for r in base.rows.iter_mut() {
+        r.coef = place(&r.coef, &zeros);
+    }
+    base.obj = place(&base.obj, &zeros);
+    let mut tie = vec![1.0; extra];
+    if kind % 3 == 2 {
+        for t in tie.iter_mut().skip(1) {
+            *t = 0.0;
+        }
+    }
+    let tie_row = row(&place(&vec![0.0; n], &tie), if kind % 3 == 0 { R::Eq } else { R::Le }, 1.0);
+    if front {
+        base.rows.insert(0, tie_row);
+    } else {
+        base.rows.push(tie_row);
+    }
+    base.vars = nn(n + extra);
+    base
+}
+
+fn embedded_cycling_all() -> Vec<LinCase> {
+    let mut v = vec![embedded_cycling(2, 0, false, 1)];
+    for which in 0..3 {
+        for extra in 1..=3 {
+            for front in [true, false] {
+                for kind in 0..3 {
+                    v.push(embedded_cycling(which, extra, front, kind));
+                }
+            }
+        }
+    }
+    v
+}
+
 struct Snap {
     a: Vec<Vec<f64>>,
     b: Vec<f64>,
@@ -251,7 +315,9 @@ impl Prop for C14 {
         }
     }
     fn fixed_cases(&self, _tier: Tier) -> Vec<LinCase> {
-        classics()
+        let mut v = classics();
+        v.extend(embedded_cycling_all());
+        v
     }
     fn canon(&self, c: &LinCase) -> String {
         serde_json::to_string(&c.pretty()).unwrap()
@@ -263,7 +329,7 @@ impl Prop for C14 {
         true
     }
     fn rule(&self) -> String {
-        "small continuous models (<=4 variables of every continuous kind, <=5 rows, integer data, zero right-hand sides forcing degenerate vertices and ratio-test ties, redundant and duplicated rows, equalities forcing two-phase starts; a fully degenerate class with every right-hand side zero; a class with coefficients of very different magnitude in one column) plus Beale's and Kuhn's cycling instances, taken through into_standard_form().into_tableau(); the canonical tableau is then stepped with Tableau::step(&[]) (up to 300 steps) and, on a clone, solved with solve_step_by_step(1000). After every step: the system is equivalent to the initial one (a spanning set of solutions of the initial system still satisfies it, basis columns are unit columns), reduced costs of basic columns are zero, the basic solution is non-negative and satisfies the initial equalities, the objective did not increase, current_value is the initial objective at the basic solution. At the end: Finished => the objective equals the exact optimum of the initial canonical system, Unbounded => the exact oracle says unbounded, solve_step_by_step agrees and stays within its limit; into_tableau's infeasible verdict is checked against the exact oracle. Non-trivial = >=3 pivots, a degenerate pivot (ratio 0), or a two-phase start. Distinct = distinct model text.".into()
+        "small continuous models (<=4 variables of every continuous kind, <=5 rows, integer data, zero right-hand sides forcing degenerate vertices and ratio-test ties, redundant and duplicated rows, equalities forcing two-phase starts; a fully degenerate class with every right-hand side zero; a class with coefficients of very different magnitude in one column) plus Beale's, Kuhn's and Chvatal's cycling instances, alone and each embedded among 1-3 cost-free variables of their own (in front or behind, tied by an equality, an inequality or a single bound: zero reduced costs next to the stalling columns), taken through into_standard_form().into_tableau(); the canonical tableau is then stepped with Tableau::step(&[]) (up to 300 steps) and, on a clone, solved with solve_step_by_step(1000). After every step: the system is equivalent to the initial one (a spanning set of solutions of the initial system still satisfies it, basis columns are unit columns), reduced costs of basic columns are zero, the basic solution is non-negative and satisfies the initial equalities, the objective did not increase, current_value is the initial objective at the basic solution. At the end: Finished => the objective equals the exact optimum of the initial canonical system, Unbounded => the exact oracle says unbounded, solve_step_by_step agrees and stays within its limit; into_tableau's infeasible verdict is checked against the exact oracle. Non-trivial = >=3 pivots, a degenerate pivot (ratio 0), or a two-phase start. Distinct = distinct model text.".into()
     }
     fn check(&self, case: &LinCase) -> Outcome {
         // recorded finding: the tableau simplex compares with an absolute tolerance of 1e-5, so a
